@@ -369,6 +369,13 @@ class Export(object):
                                            data=ds[feat],
                                            filtarr=filter_arr)
 
+            if basins and filter_arr is not None and not np.any(filter_arr):
+                # No events are exported, so there is nothing that basins
+                # could be mapped to (empty mappings cannot be stored).
+                warnings.warn(f"No basins exported to '{path}', because "
+                              f"no events are selected")
+                basins = False
+
             if basins:
                 # We have to store basins. There are three options:
                 # - filtering disabled: just copy basins
